@@ -514,7 +514,11 @@ func runC07(c *Ctx) {
 			cof = append(cof, t.scalar(s.Common().Args[3]))
 		}
 		sort.Strings(cof)
-		if strings.Join(cof, ",") != "$0[0],($0[0]+2)" && strings.Join(cof, ",") != "($0[0]+2),$0[0]" {
+		for i := range cof {
+			cof[i] = canonTerm(cof[i])
+		}
+		sort.Strings(cof)
+		if strings.Join(cof, ",") != canonTerm("$0[0]")+","+canonTerm("($0[0]+2)") && strings.Join(cof, ",") != canonTerm("($0[0]+2)")+","+canonTerm("$0[0]") {
 			bad = "the low-order point is selected by " + strings.Join(cof, ",") + ", expected privateKey[0] and privateKey[0]+2"
 			return
 		}
@@ -548,14 +552,14 @@ func runC07(c *Ctx) {
 		for _, s := range p.CallsIn(selLop, "(*"+feT+").Select") {
 			n++
 			t.at = s
-			bits[t.scalar(s.Common().Args[3])] = true
+			bits[canonTerm(t.scalar(s.Common().Args[3]))] = true
 			if feObj(p, s.Common().Args[0]) != ssa.Value(selLop.Params[0]) {
 				bad = "a Select does not write the output"
 			}
 		}
 		want := []string{"(($3>>0)&1)", "(($3>>1)&1)", "(($3>>2)&1)"}
 		for _, w := range want {
-			if !bits[w] {
+			if !bits[canonTerm(w)] {
 				bad = fmt.Sprintf("bit selector %s missing (have %v)", w, keysOf(bits))
 			}
 		}
